@@ -134,6 +134,7 @@ func (r *Runner) worker() {
 		if n%200 == 0 { // bound the memory of the hash-consing table
 			tt = NewTermTable()
 		}
+		solver.tt = tt
 		t0 := time.Now()
 		st, pending, viol, wit, inc := r.runPath(solver, tt, j)
 		st.SolverTime = solver.takeTime()
